@@ -105,6 +105,10 @@ def ops(group):
             for a in MEDS:
                 o['send-ann-%s-%s' % (p, a)] = ('rest', {'attr': json_attr(a), 'nlri': [P[p][0]]}, [('out', 'ipv4', 'ann', p, a)])
             o['send-wd-%s' % p] = ('rest', {'withdraw': [P[p][0]]}, [('out', 'ipv4', 'wd', p, None)])
+        # a request the table can only take in part: p1 withdrawn in the plain spelling, p2 announced in the add-path spelling (a
+        # dictionary, which is no table key): whatever was applied before the refusal is counted, nothing else is
+        o['send-wd-p1-ann-p2-unsavable'] = ('rest', {'attr': json_attr('a1'), 'withdraw': [P['p1'][0]], 'nlri': [{'prefix': P['p2'][0], 'path_id': 3}]},
+                                            [('out', 'ipv4', 'wd', 'p1', None)])
     if group in ('flowspec', 'mixed'):
         for f in FS:
             for a in MEDS:
@@ -288,7 +292,12 @@ def run_history(group, hist):
             s.drain_threads()
             obs = s.effects
             s.effects = None
-            if st != 200 or not dict(js).get('status'):
+            if name.endswith('-unsavable'):
+                if st == 200 and dict(js).get('status'):
+                    # a tree that can file such a request after all is not wrong: the model of this operation assumes the refusal,
+                    # so the history is not judged from here on
+                    return viol, (model.key(), 'unsavable request accepted'), list(w.exceptions)
+            elif st != 200 or not dict(js).get('status'):
                 if i == len(hist) - 1:
                     viol.append(('C19|REST send/update refused a well-formed request|%s' % name.split('-')[1], {'status': st, 'json': js}))
         else:
